@@ -44,7 +44,8 @@ var opNames = []string{"fetch", "publish", "put-fresh", "put-older", "put-base-e
 var faultKinds = []string{"error", "404", "garbage", "non-crl-der"}
 
 // Shapes of the base CRL's freshest-CRL extension.
-var shapes = []string{"absent", "uri1", "uri2", "uri3", "nonuri-dp-then-uri-dp", "nonuri-only", "uri-after-nonuri", "malformed", "empty-seq", "https-only", "https-then-http"}
+var shapes = []string{"absent", "uri1", "uri2", "uri3", "nonuri-dp-then-uri-dp", "nonuri-only", "uri-after-nonuri", "malformed", "empty-seq", "https-only", "https-then-http",
+	"malformed-uri-length", "malformed-uri-after-good", "malformed-outer-not-sequence", "malformed-point-not-sequence", "malformed-garbage-after-point"}
 
 // Case is one history with its configuration.
 type Case struct {
@@ -93,7 +94,8 @@ func advertisedIdx(shape string) (u []int, malformed bool) {
 			return []int{0}, false
 		}
 		return nil, false
-	case "malformed":
+	}
+	if strings.HasPrefix(shape, "malformed") {
 		return nil, true
 	}
 	return nil, false
@@ -134,6 +136,23 @@ func freshestRaw(shape string) []byte {
 		return []byte{0x30, 0x05, 0x30, 0x03, 0xa0, 0x05, 0x00}
 	case "empty-seq":
 		return []byte{0x30, 0x00}
+	case "malformed-uri-length":
+		// the URI element announces more bytes than its fullName holds
+		u := uri(deltaURL(0))
+		u[1] += 9
+		return wrap(0x30, dp(u))
+	case "malformed-uri-after-good":
+		bad := uri(deltaURL(1))
+		bad[1] += 9
+		return wrap(0x30, dp(append(uri(deltaURL(0)), bad...)))
+	case "malformed-outer-not-sequence":
+		b := pki.CDPDER([]string{deltaURL(0)})
+		b[0] = 0x31
+		return b
+	case "malformed-point-not-sequence":
+		return wrap(0x30, wrap(0x31, wrap(0xa0, wrap(0xa0, uri(deltaURL(0))))))
+	case "malformed-garbage-after-point":
+		return wrap(0x30, append(dp(uri(deltaURL(0))), 0x30, 0x7f, 0x00))
 	}
 	panic("shape")
 }
@@ -486,7 +505,7 @@ func calibrate() {
 
 func run(r *core.Run) int {
 	r.Rule = "all histories up to depth 3 (quick; depth-4 seed sample) / depth 4 (thorough) over {fetch, publish, put cache entry fresh / older version / base expired / delta expired / no next-update, arm cache Get fault, arm cache Set fault, arm server fault on base, on delta location 0/1/2 (kinds error, 404, garbage, non-CRL DER)} followed by a final fetch, " +
-		"x DiscardCacheError x cache present/absent x 9 freshest-CRL shapes; non-trivial = at least 2 fetches or a fault / expiry op; distinct by history + configuration"
+		"x DiscardCacheError x cache present/absent x 16 freshest-CRL shapes (5 of them malformed in different places); non-trivial = at least 2 fetches or a fault / expiry op; distinct by history + configuration"
 	r.Assume("expired = nextUpdate 2001, fresh = 2096; CRL numbers identify version and variant of every returned CRL")
 	calibrate()
 	r.Set("uri_after_non_uri_name_counts_as_advertised", eitherCounts)
